@@ -1006,7 +1006,9 @@ func (x *Exec) bindActiveLoopVars(env *Env, st *State, fr *Frame) {
 			inner = h
 		}
 	}
+	env.vars["inloop"] = intVal(IntLit(0))
 	if inner != nil {
 		x.bindLoopVars(env, st, fr, inner)
+		env.vars["inloop"] = intVal(IntLit(int64(fr.loops.ordinal[inner])))
 	}
 }
